@@ -536,6 +536,8 @@ ExecNode(n, st) ==
                      f     == [t |-> "forloop", name |-> key, length |-> len, index0 |-> 0, parent |-> parent]
                  IN IF len = 0
                     THEN (IF n.else.has THEN ExecBlock(n.else.body, s0) ELSE s0)
+                    \* the loop's namespace is one more scope (RenderContext.loop -> extend)
+                    ELSE IF TooDeep(s0) THEN Fail(s0, "ContextDepthError")
                     ELSE LET s1 == ExecFor(n, items, 1, f, LoopEnter([s0 EXCEPT !.loops = Append(@, f)], len))
                          IN LoopLeave([s1 EXCEPT !.loops = st.loops], st)
     [] n.k = "tablerow" ->
@@ -566,7 +568,8 @@ ExecNode(n, st) ==
                      s0    == Write([st EXCEPT !.stop = HPut(@, key, o + len)], "<tr class=\"row1\">\n")
                      f     == [t |-> "trloop", length |-> len, index0 |-> 0, col |-> 0, row |-> 1, ncols |-> ncols]
                      s1    == IF len = 0 THEN s0 ELSE LoopLeave(ExecRow(n, items, 1, f, LoopEnter(s0, len)), s0)
-                 IN IF s1.err # "" THEN s1 ELSE Write(s1, "</tr>\n")
+                 IN IF TooDeep(s0) THEN Fail(s0, "ContextDepthError")       \* (extended also when there are no rows)
+                    ELSE IF s1.err # "" THEN s1 ELSE Write(s1, "</tr>\n")
     [] n.k \in {"break", "continue"} -> [st EXCEPT !.intr = n.k]
     [] n.k = "incr" ->
          LET c == IF HHas(st.counters, n.n) THEN HGet(st.counters, n.n).n ELSE 0 IN
